@@ -576,6 +576,24 @@ pub fn hex_text_mutants(h: &str) -> Vec<Mutant> {
         out.push(m("hex: non-hex character", format!("{}g{}", &h[..mid], &h[mid + 1..]).into_bytes(), true));
         out.push(m("hex: non-ASCII character", format!("{}\u{e9}{}", &h[..mid], &h[mid..]).into_bytes(), true));
         out.push(m("hex: NUL inside", format!("{}\0{}", &h[..mid], &h[mid..]).into_bytes(), false));
+        // a multi-byte character straddling a byte offset at which text is commonly cut (error
+        // messages quoting a prefix, fixed-size windows): 2-, 3- and 4-byte characters replacing the
+        // hex digits just before the offset, every offset up to 40 and around powers of two
+        let mut offsets: Vec<usize> = (1..=40).collect();
+        for p in [48usize, 64, 80, 96, 100, 128, 200, 255, 256, 512, 1024, 4096] {
+            offsets.extend([p - 1, p, p + 1]);
+        }
+        offsets.push(h.len().saturating_sub(1));
+        for k in offsets {
+            for (w, ch) in [(2usize, '\u{e9}'), (3, '\u{4e2d}'), (4, '\u{1f600}')] {
+                // the character starts one byte before `k`, so that `k` falls inside it
+                if k == 0 || k + w - 1 > h.len() || !h.is_ascii() {
+                    continue;
+                }
+                let start = k - 1;
+                out.push(m(format!("hex: {w}-byte character straddling a byte offset"), format!("{}{}{}", &h[..start], ch, &h[start + w..]).into_bytes(), true));
+            }
+        }
     }
     out.push(m("hex: upper case", h.to_uppercase().into_bytes(), false));
     out.push(m("hex: 0x prefix", format!("0x{h}").into_bytes(), false));
